@@ -159,7 +159,11 @@ def run_specs(prop, specs, seed, workers=None, level='model_checking',
         'explorations': per_spec, 'samples': samples or [
             {'driver': s.get('name'), 'init': s.get('init')} for s in specs],
     }
-    cr.assumptions = list(assumptions)
+    cr.assumptions = list(assumptions) + [
+        'commands are spawned with start_new_session=True instead of '
+        'preexec_fn=os.setsid (same setsid() in the child, vfork instead of '
+        'fork; VERIF_FAST_SPAWN=0 restores the original call; always '
+        'original for C16)']
     return cr
 
 
